@@ -43,6 +43,7 @@ class Ctx:
         self.seed = int(os.environ.get('VERIF_SEED', '0') or 0)
         self._known = self._load_known()
         self.analysed: dict = {'functions': set(), 'call_sites': 0, 'events': 0}
+        self.floor_failures: list = []
 
     # ------------------------------------------------------------------ known findings
     @staticmethod
@@ -86,8 +87,9 @@ class Ctx:
     def floor(self, rule: str, what: str, found: int, minimum: int) -> None:
         """A rule matching fewer instances than confirmed by reading passes vacuously: refuse."""
         if found < minimum:
-            raise AnalysisError(rule, f'{what}: {found} instance(s) found, at least {minimum} '
-                                      'were confirmed by reading the pinned tree')
+            # deferred: a violation found by the same run is the more specific verdict
+            self.floor_failures.append((rule, f'{what}: {found} instance(s) found, at least {minimum} '
+                                              'were confirmed by reading the pinned tree'))
         self.tables.setdefault('floors', {})[f'{rule}:{what}'] = {'found': found, 'floor': minimum}
 
     def sample(self, obj) -> None:
@@ -101,6 +103,8 @@ class Ctx:
     # ------------------------------------------------------------------ finish
     def finish(self) -> int:
         viol = [o for o in self.obligations if o['status'] == 'violation']
+        if self.floor_failures and not viol:
+            raise AnalysisError(*self.floor_failures[0])
         known = [o for o in self.obligations if o['status'] == 'known']
         okc = sum(1 for o in self.obligations if o['status'] == 'ok')
         REPLAY.mkdir(exist_ok=True)
